@@ -333,8 +333,25 @@ func runSync(k *kernel.K) {
 		case a == 7: // a server's chain moves: new blocks and finalisation
 			sv := s.servers[k.Choose(len(s.servers), "moving-server")]
 			best, _ := sv.bs.BestBlockHeader()
-			nb := s.produce(s.all.Blocks[best.Hash()])
+			from := s.all.Blocks[best.Hash()]
+			grow := 1
+			if k.Bool(1, 3, "server-reorg") {
+				// a competing fork of the server's tree grows and may overtake its best chain (re-organisation
+				// between requests: heights served before now belong to another chain)
+				all := sv.ref.All()
+				from = s.all.Blocks[all[k.Choose(len(all), "reorg-from")]]
+				grow = 1 + k.Choose(4, "reorg-grow")
+				k.Fault("server-fork-grows")
+			}
+			var nb *cu.RefBlock
+			for i := 0; i < grow; i++ {
+				nb = s.produce(from)
+				from = nb
+			}
 			sv.importChain(s, nb)
+			if nbest, _ := sv.bs.BestBlockHeader(); nbest.ParentHash != best.Hash() && nbest.Hash() != best.Hash() && !s.isAncestor(best.Hash(), nbest.Hash()) {
+				k.Probe("server-best-chain-reorganised")
+			}
 			if k.Bool(1, 2, "server-finalises") {
 				path := sv.ref.PathFrom(sv.ref.Root, nb.Hash)
 				if len(path) > 1 {
